@@ -10,6 +10,6 @@ for p in "$@"; do
   git apply $p
   RES=$(/verif/bin/mlbcheck sweep 2>&1)
   git checkout -- . ; git clean -fdq -- . 2>/dev/null
-  BAD=$(echo "$RES" | grep -vE '^(OK|KNOWN-FINDING)')
+  BAD=$(echo "$RES" | grep -vE "^(OK|KNOWN-FINDING|NORMALISED)")
   if [ -z "$BAD" ]; then echo "== $p: silent"; else echo "== $p: ALARM"; echo "$BAD"; fi
 done
